@@ -42,7 +42,14 @@ func (s *State) ghostGet(k string) Term {
 //   MV#<K>#<V>[.comp]           Int -> K -> sort     map values
 //   ML#<K>#<V>                  Int -> Int           map lengths
 
+type freshLink struct {
+	parent Term
+	bound  Term // objects with 0 < ref <= bound existed before and are unchanged
+}
+
 type HeapEnv struct {
+	links     map[string]freshLink // version symbol -> the version it was derived from by a fresh-only havoc
+	parents   map[string][]Term    // version symbol built by store/ite -> the versions it was built from
 	sc        *Script
 	sorts     map[string]Sort // family -> sort
 	immutable func(fam string) bool
@@ -64,7 +71,15 @@ func (h *HeapEnv) cur(st *State, fam string, so Sort) Term {
 func (h *HeapEnv) set(st *State, fam string, t Term) {
 	h.sorts[fam] = t.Sort
 	h.nver++
+	prev, hadPrev := st.heap[fam]
+	if !hadPrev {
+		prev = h.cur(st, fam, t.Sort)
+	}
 	n := h.sc.DefineNamed(fmt.Sprintf("%s@%d", fam, h.nver), t)
+	if h.parents == nil {
+		h.parents = map[string][]Term{}
+	}
+	h.parents[n.S] = []Term{prev}
 	st.heap[fam] = n
 }
 
@@ -75,6 +90,23 @@ func (h *HeapEnv) havocFam(st *State, fam string, so Sort) {
 	}
 	h.nver++
 	st.heap[fam] = h.sc.DeclareConst(fmt.Sprintf("%s@h%d", fam, h.nver), so)
+}
+
+// havocFamFresh: the family was written only at objects allocated after `bound`; cells of older objects keep
+// their value. The link is instantiated at every later read (see FnVC.linkFresh).
+func (h *HeapEnv) havocFamFresh(st *State, fam string, so Sort, bound Term) {
+	h.sorts[fam] = so
+	if h.immutable != nil && h.immutable(fam) {
+		return
+	}
+	prev := h.cur(st, fam, so)
+	h.nver++
+	n := h.sc.DeclareConst(fmt.Sprintf("%s@f%d", fam, h.nver), so)
+	if h.links == nil {
+		h.links = map[string]freshLink{}
+	}
+	h.links[n.S] = freshLink{parent: prev, bound: bound}
+	st.heap[fam] = n
 }
 
 func (h *HeapEnv) havocAll(st *State) {
@@ -148,7 +180,12 @@ func (h *HeapEnv) merge(ins []edgeState) *State {
 			t = Ite(ins[i].cond, vers[i], t)
 		}
 		h.nver++
-		out.heap[fam] = h.sc.DefineNamed(fmt.Sprintf("%s@m%d", fam, h.nver), t)
+		mn := h.sc.DefineNamed(fmt.Sprintf("%s@m%d", fam, h.nver), t)
+		if h.parents == nil {
+			h.parents = map[string][]Term{}
+		}
+		h.parents[mn.S] = append([]Term(nil), vers...)
+		out.heap[fam] = mn
 	}
 	// allocPtr
 	ap := ins[len(ins)-1].st.allocPtr
@@ -170,9 +207,31 @@ func (h *HeapEnv) merge(ins []edgeState) *State {
 	}
 	sort.Strings(gnames)
 	for _, k := range gnames {
-		t := ins[len(ins)-1].st.ghostGet(k)
+		// typed default for states that do not have the ghost yet
+		var def Term
+		for _, e := range ins {
+			if t, ok := e.st.ghost[k]; ok {
+				switch {
+				case t.Sort == SBool:
+					def = tFalse
+				case t.Sort == SInt:
+					def = tZero
+				default:
+					inner := string(t.Sort)[len("(Array Int ") : len(t.Sort)-1]
+					def = h.sc.DeclareConst("ea0#"+strings.TrimPrefix(k, "ea#")+"#"+inner, t.Sort)
+				}
+				break
+			}
+		}
+		get := func(s *State) Term {
+			if t, ok := s.ghost[k]; ok {
+				return t
+			}
+			return def
+		}
+		t := get(ins[len(ins)-1].st)
 		for i := len(ins) - 2; i >= 0; i-- {
-			t = Ite(ins[i].cond, ins[i].st.ghostGet(k), t)
+			t = Ite(ins[i].cond, get(ins[i].st), t)
 		}
 		out.ghost[k] = h.sc.Define("ghost", t)
 	}
